@@ -280,15 +280,75 @@ class HandlerProtocol:
 
     def inline(self, call: ast.Call, ctx: Ctx) -> Sequence[FnRef]:
         f = call.func
+        if isinstance(f, ast.Name) and ctx.fn is not None:
+            # a function of the package called by name (e.g. a helper extracted to module level): followed like a private method
+            mod_ = ctx.fn.owner.module
+            r_ = self.prog.resolve_name(mod_, f.id)
+            if r_ is None and getattr(ctx.fn, "orig", None) is not None:
+                for c_ in self.prog.mro(self.cls):
+                    r_ = self.prog.resolve_name(c_.module, f.id)
+                    if r_ is not None:
+                        break
+            if isinstance(r_, tuple) and len(r_) == 3 and r_[0] == "func" and isinstance(r_[2], ast.FunctionDef) \
+                    and r_[1].file.startswith("jellyfysh/event_handler/") and r_[2] is not ctx.fn.orig:
+                cache = self.__dict__.setdefault("_module_refs", {})
+                if id(r_[2]) not in cache:
+                    cache[id(r_[2])] = FnRef(ctx.fn.owner, r_[2])
+                return [cache[id(r_[2])]]
+            return []
         if isinstance(f, ast.Attribute):
             if isinstance(f.value, ast.Name) and f.value.id == "self":
                 if f.attr in self.roles.atomic():
                     return []
-                return implementations(self.prog, self.cls, f.attr)
+                return [self._bound(r_, call) for r_ in implementations(self.prog, self.cls, f.attr)]
             if isinstance(f.value, ast.Call) and isinstance(f.value.func, ast.Name) and f.value.func.id == "super":
                 r = self.prog.resolve_method(self.cls, f.attr, after=ctx.fn.owner)
                 return [FnRef(*r)] if r else []
         return []
+
+    def _bound(self, ref: FnRef, call: ast.Call) -> FnRef:
+        """
+        The helper as it runs for this call: parameters that the helper never re-binds are replaced by the (side-effect free) argument
+        expressions, so that what it writes is judged with the provenance the caller gave it.  Anything else: the helper as it is.
+        """
+        fn = ref.fn
+        ps = [a.arg for a in fn.args.args if a.arg not in ("self", "cls")]
+        if not ps or call.keywords or len(call.args) != len(ps) or fn.args.vararg or fn.args.kwarg \
+                or any(isinstance(a, ast.Starred) for a in call.args):
+            return ref
+        stored = {x.id for x in ast.walk(fn) if isinstance(x, ast.Name) and isinstance(x.ctx, (ast.Store, ast.Del))}
+        locals_ = stored | {x.arg for x in ast.walk(fn) if isinstance(x, ast.arg)}
+        env = {}
+        for p_, a_ in zip(ps, call.args):
+            pure = not any(isinstance(x, (ast.Call, ast.Yield, ast.Await, ast.NamedExpr)) for x in ast.walk(a_))
+            names_ = {x.id for x in ast.walk(a_) if isinstance(x, ast.Name)}
+            # only arguments made of `self` attributes: they mean the same inside the helper (no local of the caller is captured)
+            if p_ not in stored and pure and names_ <= {"self"} and not isinstance(a_, ast.Constant):
+                env[p_] = a_
+        if not env:
+            return ref
+        key = (id(fn), tuple(sorted((k, norm(v)) for k, v in env.items())))
+        cache = self.__dict__.setdefault("_bound_cache", {})
+        if key not in cache:
+            import copy as _copy
+
+            class _S(ast.NodeTransformer):
+                def visit_Name(self, node):
+                    if isinstance(node.ctx, ast.Load) and node.id in env:
+                        return ast.copy_location(_copy.deepcopy(env[node.id]), node)
+                    return node
+            saved = fn.__dict__.pop("_jfsa_canon", None)
+            try:
+                f2 = _copy.deepcopy(fn)
+            finally:
+                if saved is not None:
+                    fn.__dict__["_jfsa_canon"] = saved
+            f2.body = [_S().visit(st) for st in f2.body]
+            ast.fix_missing_locations(f2)
+            r2 = FnRef.__new__(FnRef)
+            r2.owner, r2.orig, r2.fn = ref.owner, ref.orig, f2
+            cache[key] = r2
+        return cache[key]
 
     def transfer(self, state: State, ev: Any, ctx: Ctx) -> State:
         kind = ev[0]
@@ -398,7 +458,7 @@ class HandlerProtocol:
             self.ob("R7.2-snap-after-slice", "SLICED" in s, ctx, node,
                     "writes a position directly although the state has not been time-sliced on every path before")
 
-    def _grant_time_ok(self, ts_write: ast.Assign, s: set, ctx: Ctx) -> Tuple[bool, str]:
+    def _grant_time_ok(self, ts_write: ast.Assign, s: set, ctx: Ctx) -> Tuple[Optional[bool], str]:
         v = _is_copy_of(ts_write.value)
         if self_attr(v) == "_event_time":
             if "TIME" in s or self._time_is_preset():
@@ -411,6 +471,13 @@ class HandlerProtocol:
                            "event time, so that unit's stamp is not the event time")
         if self.init_event_time is not None and norm(v) == self.init_event_time and not self.event_time_assigned_outside_init:
             return True, ""
+        root_ = v
+        while isinstance(root_, (ast.Attribute, ast.Subscript)):
+            root_ = root_.value
+        if isinstance(root_, ast.Name) and ctx.fn is not None and root_.id in [a.arg for a in ctx.fn.fn.args.args if a.arg not in ("self", "cls")] \
+                and ctx.fn.fn.name not in ("send_out_state", "send_event_time"):
+            # the stamp is a parameter of a helper: what the callers pass is not followed here
+            return None, "the time stamp is a parameter of this helper (the values passed by its callers are not followed)"
         return False, ("the time stamp is neither the handler's event time, nor the stamp of a time-sliced unit, nor the "
                        "constant the handler's event time is initialised with")
 
